@@ -1021,13 +1021,14 @@ class Rewriter:
             with open(fpath, encoding='utf-8') as fp:
                 fdata = fp.read()
 
-            # Generate line offsets numbers
-            m_lines = fdata.splitlines(True)
-            offset = 0
-            line_offsets = []
-            for j in m_lines:
-                line_offsets += [offset]
-                offset += len(j)
+            # Generate line offsets numbers. Only '\n' ends a line for the
+            # parser, so do not use splitlines(), which also splits on form
+            # feeds, U+2028 and other separators.
+            line_offsets = [0]
+            offset = fdata.find('\n')
+            while offset >= 0:
+                line_offsets += [offset + 1]
+                offset = fdata.find('\n', offset + 1)
 
             files[T.cast(str, i['file'])] = {
                 'path': fpath,
